@@ -69,6 +69,28 @@ CLAIMED = {
              "F16 (non-standard GTF dialects) is recorded with a Coq refutation witness (Examples/C08_inhabited.v).",
         technique="Coq proof (codec round-trip theorems over generated quoting table) + differential correspondence incl. exhaustive short strings",
         design="4 (C08)"),
+    "C09": dict(
+        text="Coq theorems (Properties/C09.v, 12 statements, closed under the global context): for every well-formed line of "
+             "every one of the 36 styles the dialect inferred by the parser's inference path is the style's canonical dialect "
+             "(format, key/value separator, quoting, trailing semicolon; field separator when >= 2 parts; repeated-keys flag "
+             "when a key repeats; keys in first-seen order) - a corollary of C07_parse_attrs; the vote of _choose_dialect, for "
+             "any value type: the chosen value has maximal total weight (weight = attribute count), every value first seen "
+             "earlier has strictly less, every value seen later at most as much - i.e. weighted majority, ties to the value "
+             "seen first, zero-weight lines still count as seen (C09_vote, by induction over the tally = insertion-ordered dict "
+             "and the stable descending sort); consistent windows recover their dialect (C09_file_consistent, composing the "
+             "parser theorem with the vote); key order = first-seen union, each key once; empty input -> default dialect; a "
+             "supplied dialect is returned verbatim; the window is the first checklines+1 features; GFF3 importer iff force_gff "
+             "or fmt = gff3, GTF importer iff fmt = gtf. Tied to helpers.py/iterators.py/create.py by ~770 files per quick run "
+             "(consistent files in all styles, two-valued mixtures with ties in both orders and zero-weight lines, routing "
+             "files, supplied dialects), comparing infer_dialect per line, DataIterator.dialect (path and Feature-list input), "
+             "the dialect on yielded features, db.dialect, the reopened dialect and which importer ran, inside Coq.",
+        note="Trusted: Coq kernel + vm_compute; Model/Dialect.v (hand model of _choose_dialect, the peek window and the "
+             "routing in create_db) and Model/Parser.v are tied to the code by the correspondence. The number of inspected "
+             "lines (checklines vs checklines+1) is not fixed by the property: cases whose outcome depends on it are "
+             "out of domain. JSON persistence of the dialect (meta table) is modelled as the identity and checked by "
+             "the correspondence (reopen). FeatureDB.update's routing by the stored dialect is exercised under C10.",
+        technique="Coq proof (vote = first maximal total by induction; line dialect from the parse theorem; composition for consistent files) + differential correspondence",
+        design="4 (C09)"),
     "C02": dict(
         text="Coq theorems (Properties/C02.v, 11 statements, closed under the global context) about the model of the GFF3 "
              "importer and of children()/parents(): for every input with unique tab/newline-free ids the import succeeds and "
